@@ -4,8 +4,11 @@ d="$1"; prop="$2"
 cd /repo || exit 2
 git diff --quiet || { echo "/repo has uncommitted changes"; exit 2; }
 git apply "$d/patch.diff" || { echo "PATCH-DOES-NOT-APPLY $d"; exit 2; }
+cp /verif/evidence/$prop.json /var/tmp/.ev_$prop.$$ 2>/dev/null
 out=$(cd /verif && ./check "$prop" 2>&1)
 rc=$?
+# the evidence file describes the unchanged tree; put it back
+[ -f /var/tmp/.ev_$prop.$$ ] && mv /var/tmp/.ev_$prop.$$ /verif/evidence/$prop.json
 git -C /repo checkout -- . 
 echo "$out" | grep "^VIOLATION\|^property\|^KNOWN\|BUILD" | cut -c1-220 | head -6
 if [ $rc -eq 1 ]; then echo "RESULT $d: DETECTED"; else echo "RESULT $d: MISSED (exit $rc)"; fi
